@@ -117,6 +117,11 @@ def op_pool(ctx, lays):
     pool = st.frame_pool(rng)
     for _ in range(10):
         ops.append({"kind": "stream", "S": st.garbage_stream(rng, pool, rng.randrange(3, 12)).hex(), "mode": 0})
+    # the same entry points with every option given positionally (a sample of each kind)
+    for kind in ("parse", "construct", "stream"):
+        same = [o for o in ops if o["kind"] == kind and not o.get("pos")]
+        for o in rng.sample(same, min(len(same), 12)):
+            ops.append(dict(o, pos=1))
     return ops
 
 
@@ -166,6 +171,10 @@ def run(ctx):
         msgs.append({"how": "construct", "cls": 6, "id": 0x8B, "mode": 2, "kwargs": {"payload": {"hex": "00000000"}}})
         for k in range(0, len(msgs), 50):
             yield ("world", {"_k": "attrs:%d" % k, "mode": "attrs", "msgs": msgs[k:k + 50]})
+        # ... and on the twins of a sample of them: unpickled (1), deep-copied (2), copied (3)
+        for tw in (1, 2, 3):
+            pick = msgs[tw::7] + msgs[-2:]
+            yield ("world", {"_k": "attrs:twin:%d" % tw, "mode": "attrs", "msgs": [dict(x, twin=tw) for x in pick]})
         # (b, c) histories
         for k in range(400 if big else 36):
             idx = list(range(len(ops)))
